@@ -183,6 +183,9 @@ def histories(draw):
                 continue
             else:
                 ov[nm] = f"sentinel::{nm}::{i}"
+        if draw(st.booleans()):
+            # the verbosity is the one option whose effect lives in process-wide state (the "BADS" logger)
+            ov["display"] = draw(st.sampled_from(CURATED["display"]))
         unknown = None
         if draw(st.sampled_from([False] * 5 + [True])):
             base = draw(st.sampled_from(names))
@@ -239,7 +242,12 @@ def run_history(case):
     advset = set(adv)
     evals = 0
 
+    seen_levels = []
+
     def target(x):
+        import logging
+
+        seen_levels.append(logging.getLogger("BADS").level)  # the verbosity in force while the target is being called
         return float(np.sum(np.asarray(x) ** 2))
 
     for kind, i in case["ops"]:
@@ -337,12 +345,19 @@ def run_history(case):
             b.options["max_fun_evals"] = min(int(b.options["max_fun_evals"]), 12) if "max_fun_evals" not in case["insts"][i]["overrides"] else b.options["max_fun_evals"]
             b.options["display"] = b.options["display"] if "display" in case["insts"][i]["overrides"] else "off"
             pre_other = {j: snapshot(live[j][0].options) for j in live if j != i}
+            del seen_levels[:]
+            want_level = {"off": 30, "iter": 20, "final": 20, "full": 10}.get(b.options["display"], 20)
             try:
                 b.optimize()
             except Exception as e:  # noqa: BLE001
                 info = harness.exc_info(e)
                 labs.append("run-exception:" + info["type"])
             ran.add(i)
+            # (a) the display option of *this* instance is what governs its run, whatever was constructed in between
+            if "display" in case["insts"][i]["overrides"] and seen_levels and any(lv != want_level for lv in seen_levels):
+                v.append(viol("a:user-value-not-in-effect", f"display={b.options['display']!r} of instance {i}: logger level during its run was "
+                              f"{sorted(set(seen_levels))}, expected {want_level} (instances constructed since: "
+                              f"{[case['insts'][j]['overrides'].get('display') for j in live if j != i]})", site="display"))
             if user_before is not None and not same(user, user_before):
                 v.append(viol("e:caller-options-dict-mutated", f"after optimize(): before={user_before} after={user}", site="optimize"))
             for nm, a0, a1 in zip(("x0", "lb", "ub", "plb", "pub"), arrs_before, arrs):
